@@ -245,6 +245,18 @@ fn check_c23(seed: u64, tier: Tier, replay: Option<String>) -> i32 {
             }
         }
         acc.probes.add("full_pipeline_rename_scenarios", renames.len() as u64 * 5);
+        // enumerated: the generation fails while writing each of its output files in turn (the first
+        // write of every distinct staged file), i.e. in every stage: leaf, private batch, public batch, config
+        let mut seen_files: Vec<String> = vec![];
+        for (ci, t) in ev.traces[0].iter().enumerate() {
+            if t.op == "write" && (ci as u64) < first_rename && !seen_files.contains(&t.path) {
+                seen_files.push(t.path.clone());
+                let mut sc = gbase[*i].clone();
+                sc.runs[0].plan = vec![Fault { call: ci as u64, kind: FaultKind::Errno { errno: 28 } }];
+                gscen.push(sc);
+            }
+        }
+        acc.probes.add("full_pipeline_per_file_write_failures", seen_files.len() as u64);
         let n = if quick { 5 } else { 150 };
         for k in 0..n {
             // half of the faults in the generation phase, half in the publish phase
